@@ -85,6 +85,8 @@ pub struct HdlcDeframer {
     bitfixed: usize,
     stream_pos: u64,
     fix_bits: bool,
+    /// The last eight input bits, newest in the top bit.
+    recent: u8,
 }
 
 impl Drop for HdlcDeframer {
@@ -119,6 +121,7 @@ impl HdlcDeframer {
                 bitfixed: 0,
                 stream_pos: 0,
                 fix_bits: false,
+                recent: 0xff,
             },
             dr,
         )
@@ -134,7 +137,19 @@ impl HdlcDeframer {
         self.strip_checksum = val;
     }
 
+    /// State to continue in after giving up on the current frame: hunt for a
+    /// flag in the actual recent input, which may already contain (part of)
+    /// the next frame's opening flag.
+    fn hunt(&self) -> State {
+        if self.recent == 0x7e {
+            State::Synced((0, Vec::with_capacity(self.max_size)))
+        } else {
+            State::Unsynced(self.recent)
+        }
+    }
+
     fn update_state(&mut self, bit: u8, stream_pos: u64) -> Result<State> {
+        self.recent = (self.recent >> 1) | (bit << 7);
         Ok(match &mut self.state {
             State::Unsynced(v) => {
                 let n = (*v >> 1) | (bit << 7);
@@ -150,8 +165,11 @@ impl HdlcDeframer {
                 // We can't move from `bits`, since it's only borrowed,
                 // but we can swap its contents.
                 std::mem::swap(&mut bits, inbits);
-                if bits.len() > self.max_size * 8 {
-                    return Ok(State::Unsynced(0xff));
+                // The bit buffer also collects the first seven bits of the
+                // closing flag before the frame is recognized as complete.
+                if bits.len() > self.max_size * 8 + 7 {
+                    // Too long. Go back to hunting for a flag.
+                    return Ok(self.hunt());
                 }
                 if bit > 0 {
                     bits.push(1);
@@ -175,11 +193,11 @@ impl HdlcDeframer {
                 std::mem::swap(&mut bits, inbits);
                 if bit == 1 {
                     // 7 ones in a row is invalid. Discard what we've collected.
-                    return Ok(State::Unsynced(0xff));
+                    return Ok(self.hunt());
                 }
                 if bits.len() < 7 {
                     // Too short, not even zero bytes.
-                    return Ok(State::Unsynced(0xff));
+                    return Ok(self.hunt());
                 }
 
                 // Remove partial flag.
